@@ -104,12 +104,15 @@ func cls(err error) string {
 	if c == "other" && (strings.Contains(err.Error(), "validate owner password:") || strings.Contains(err.Error(), "validate user password:")) {
 		return "validate"
 	}
+	if c == "other" && strings.Contains(err.Error(), "password entries:") {
+		return "prepare" // the writer cannot prepare a new AES-256 password (preparedPasswordAES256)
+	}
 	return c
 }
 
 // codes shared with ocaml/C25_glue.ml (Model.outcome_code)
 var code = map[string]string{"ok": "0", "owner-required": "3", "wrong-password": "4", "invalid-perms": "5",
-	"permission-denied": "6", "validate": "7", "not-encrypted": "8", "encrypted": "9"}
+	"permission-denied": "6", "validate": "7", "not-encrypted": "8", "encrypted": "9", "prepare": "a"}
 
 func codeOf(c string) string {
 	if x, ok := code[c]; ok {
@@ -142,17 +145,11 @@ func rprep(a alg, x string) (string, bool) {
 	return string(p), true
 }
 
-func wstore(a alg, c string) string {
-	if !a.aes256() {
-		return pad32(c)
-	}
-	return c
-}
-
-// x is accepted for current password c
+// x is accepted for current password c: same prepared form
 func accepts(a alg, c, x string) bool {
 	p, ok := rprep(a, x)
-	return ok && p == wstore(a, c)
+	q, okc := rprep(a, c)
+	return ok && okc && p == q
 }
 
 // defect class for a current password that does not open its own document
